@@ -480,6 +480,7 @@ def install(it):
     A(r'std::boxed::Box::<.*>::pin', m_box_pin)
     A(r'<\{async .*\} as (?:std::future|futures)::Future>::poll', m_future_poll)
     A(r'<impl std::future::Future<.*> as (?:std::future|futures)::Future>::poll', m_future_poll)
+    A(r'<\{coroutine@.*\} as (?:std::future|futures)::Future>::poll', m_future_poll)
     A(r'<std::pin::Pin<std::boxed::Box<dyn (?:std::future|futures)::Future<.*> as (?:std::future|futures)::Future>::poll', m_future_poll)
     A(r'bytes::BytesMut::zeroed', m_zeroed)
     A(r'bytes::(BytesMut|Bytes)::clear', lambda it, a, ty, c: (it.store(a[0], byte_seq(())), UNIT)[1])
